@@ -1,12 +1,12 @@
 """Constants of the models, re-read from /repo's SOURCE TEXT on every run and emitted as coq/gen/Consts_gen.v.
-The lemmas of coq/theories/SRC.v state that each dispatch table of the hand-written models (which bytes end a package
+The lemmas of coq/theories/SRC_*.v (one file per model) state that each dispatch table of the hand-written models (which bytes end a package
 name, which end a qualifier, what is a blank, where the columns of an ar header lie, the changelog date layout, the
-format version of a .deb) is the table the source has today.  An edit of one of those tables breaks SRC.v before any
+format version of a .deb) is the table the source has today.  An edit of one of those tables breaks the SRC_ file of that model before any
 case is run.  This is a translator for tables only - the control flow around them is tied by the correspondence."""
 import os
 import re
 
-ESC = {"t": 9, "n": 10, "r": 13, "\\": 92, "'": 39, "0": 0}
+ESC = {"t": 9, "n": 10, "r": 13, "\\": 92, "'": 39, "0": 0, "v": 11, "f": 12, "a": 7, "b": 8}
 
 
 def func_body(src, name):
@@ -35,27 +35,53 @@ def cases(body):
 
 
 def extract(repo):
+    """every area on its own: a source file the extractor cannot read any more loses its own constants (the definitions are then
+    missing from Consts_gen.v and the SRC_ file of that model no longer compiles), not those of the other models"""
     rd = lambda p: open(os.path.join(repo, p)).read()
-    parser, ar, cl, deb = rd("dependency/parser.go"), rd("deb/ar.go"), rd("changelog/changelog.go"), rd("deb/deb.go")
     c = {}
-    c["blank"] = sorted(sum(cases(func_body(parser, "eatWhitespace")), []))
-    pc = cases(func_body(parser, "parsePossibility"))
-    c["possi_cases"] = pc                       # [[':'], [blank ( [ <], [, | 0]]
-    c["multiarch_stop"] = sorted(sum(cases(func_body(parser, "parseMultiarch")), []))
-    c["controllers_cases"] = cases(func_body(parser, "parsePossibilityControllers"))
-    # the four clause loops: which bytes end the clause with an error, which close it
-    c["number_cases"] = cases(func_body(parser, "parsePossibilityNumber"))
-    c["arch_cases"] = cases(func_body(parser, "parsePossibilityArch"))
-    c["stage_cases"] = cases(func_body(parser, "parsePossibilityStage"))
-    c["substvar_cases"] = cases(func_body(parser, "parseSubstvar"))
-    arb = func_body(ar, "parseArEntry")
-    cols = [(int(a), int(b)) for a, b in re.findall(r"line\[(\d+):(\d+)\]", arb)]
-    c["ar_columns"] = sorted(set(cols))
-    c["ar_magic"] = [(int(i), int(v, 0)) for i, v in re.findall(r"line\[(\d+)\] != (0x[0-9A-Fa-f]+|\d+)", arb)]
-    c["ar_header_len"] = [int(x) for x in re.findall(r"len\(line\) != (\d+)", arb)]
-    m = re.search(r'const whenLayout = (?:"([^"]*)"|time\.(\w+))', cl)
-    c["when_layout"] = (m.group(1) if m and m.group(1) is not None else ("time." + m.group(2) if m else ""))
-    c["deb_versions"] = re.findall(r'case "([^"]*)":\s*\n\s*return loadDeb2', func_body(deb, "loadDeb"))
+
+    def area(f):
+        try:
+            c.update(f())
+        except Exception:
+            pass
+
+    def dep():
+        parser = rd("dependency/parser.go")
+        return {"blank": sorted(sum(cases(func_body(parser, "eatWhitespace")), [])),
+                "possi_cases": cases(func_body(parser, "parsePossibility")),                     # [[':'], [blank ( [ <], [, | 0]]
+                "multiarch_stop": sorted(sum(cases(func_body(parser, "parseMultiarch")), [])),
+                "controllers_cases": cases(func_body(parser, "parsePossibilityControllers")),
+                # the four clause loops: which bytes end the clause with an error, which close it
+                "number_cases": cases(func_body(parser, "parsePossibilityNumber")),
+                "arch_cases": cases(func_body(parser, "parsePossibilityArch")),
+                "stage_cases": cases(func_body(parser, "parsePossibilityStage")),
+                "substvar_cases": cases(func_body(parser, "parseSubstvar"))}
+
+    def arf():
+        arb = func_body(rd("deb/ar.go"), "parseArEntry")
+        cols = [(int(a), int(b)) for a, b in re.findall(r"line\[(\d+):(\d+)\]", arb)]
+        return {"ar_columns": sorted(set(cols)),
+                "ar_magic": [(int(i), int(v, 0)) for i, v in re.findall(r"line\[(\d+)\] != (0x[0-9A-Fa-f]+|\d+)", arb)],
+                "ar_header_len": [int(x) for x in re.findall(r"len\(line\) != (\d+)", arb)]}
+
+    def clf():
+        m = re.search(r'const whenLayout = (?:"([^"]*)"|time\.(\w+))', rd("changelog/changelog.go"))
+        return {"when_layout": (m.group(1) if m and m.group(1) is not None else ("time." + m.group(2) if m else ""))}
+
+    def debf():
+        return {"deb_versions": re.findall(r'case "([^"]*)":\s*\n\s*return loadDeb2', func_body(rd("deb/deb.go"), "loadDeb"))}
+
+    def cpf():
+        # internal.Copy: how the destination is opened, and whether the name is removed (after an Lstat) before that
+        cp = func_body(rd("internal/copy.go"), "Copy")
+        m = re.search(r"os\.OpenFile\(dest,\s*([^,]+),", cp)
+        opened = m.start() if m else len(cp)
+        return {"copy_open_flags": [f.strip().replace("os.", "") for f in m.group(1).split("|")] if m else (["os.Create"] if "os.Create(dest)" in cp else []),
+                "copy_removes_first": bool(re.search(r"os\.Lstat\(dest\)", cp[:opened]) and re.search(r"os\.Remove\(dest\)", cp[:opened]))}
+
+    for f in (dep, arf, clf, debf, cpf):
+        area(f)
     return c
 
 
@@ -69,22 +95,24 @@ def coq_str(s):
 
 def render(c):
     go_unescape = lambda s: s.encode().decode("unicode_escape")
+    lol = lambda xs: "[%s]" % "; ".join(coq_list(x) for x in xs)
+    pairs = lambda xs: "[%s]" % "; ".join("(%d, %d)" % p for p in xs)
+    shape = [("blank", "list N", coq_list), ("possi_cases", "list (list N)", lol), ("multiarch_stop", "list N", coq_list),
+             ("controllers_cases", "list (list N)", lol), ("number_cases", "list (list N)", lol), ("arch_cases", "list (list N)", lol),
+             ("stage_cases", "list (list N)", lol), ("substvar_cases", "list (list N)", lol), ("ar_columns", "list (N * N)", pairs),
+             ("ar_magic", "list (N * N)", pairs), ("ar_header_len", "list N", coq_list),
+             ("when_layout", "string", lambda v: coq_str(v) + "%string"),
+             ("deb_versions", "list (list N)", lambda vs: lol([list(go_unescape(v).encode("latin1")) for v in vs])),
+             ("copy_open_flags", "list string", lambda fs: "[%s]" % "; ".join(coq_str(f) + "%string" for f in fs)),
+             ("copy_removes_first", "bool", lambda b: "true" if b else "false")]
     lines = ["(* GENERATED on every run by driver/srcconsts.py from the source text of /repo - do not edit *)",
-             "From Coq Require Import List String NArith.", "Import ListNotations.", "Open Scope N_scope.", "",
-             "Definition blank : list N := %s." % coq_list(c["blank"]),
-             "Definition possi_cases : list (list N) := [%s]." % "; ".join(coq_list(x) for x in c["possi_cases"]),
-             "Definition multiarch_stop : list N := %s." % coq_list(c["multiarch_stop"]),
-             "Definition controllers_cases : list (list N) := [%s]." % "; ".join(coq_list(x) for x in c["controllers_cases"]),
-             "Definition number_cases : list (list N) := [%s]." % "; ".join(coq_list(x) for x in c["number_cases"]),
-             "Definition arch_cases : list (list N) := [%s]." % "; ".join(coq_list(x) for x in c["arch_cases"]),
-             "Definition stage_cases : list (list N) := [%s]." % "; ".join(coq_list(x) for x in c["stage_cases"]),
-             "Definition substvar_cases : list (list N) := [%s]." % "; ".join(coq_list(x) for x in c["substvar_cases"]),
-             "Definition ar_columns : list (N * N) := [%s]." % "; ".join("(%d, %d)" % p for p in c["ar_columns"]),
-             "Definition ar_magic : list (N * N) := [%s]." % "; ".join("(%d, %d)" % p for p in c["ar_magic"]),
-             "Definition ar_header_len : list N := %s." % coq_list(c["ar_header_len"]),
-             "Definition when_layout : string := %s%%string." % coq_str(c["when_layout"]),
-             "Definition deb_versions : list (list N) := [%s]." % "; ".join(coq_list(list(go_unescape(v).encode("latin1"))) for v in c["deb_versions"]),
-             ""]
+             "From Coq Require Import List String NArith.", "Import ListNotations.", "Open Scope N_scope.", ""]
+    for name, ty, show in shape:
+        if name in c:
+            lines.append("Definition %s : %s := %s." % (name, ty, show(c[name])))
+        else:
+            lines.append("(* %s: could not be read from the source *)" % name)
+    lines.append("")
     return "\n".join(lines)
 
 
